@@ -139,7 +139,7 @@ class Discard(Exception):
 
 
 class RunResult(object):
-    __slots__ = ("violation", "digest", "stats", "states", "nontrivial", "probes", "discard", "n_ops", "sim_time", "records")
+    __slots__ = ("violation", "digest", "stats", "states", "nontrivial", "probes", "discard", "n_ops", "sim_time", "records", "derived_case")
 
     def __init__(self):
         self.violation = None
@@ -152,6 +152,7 @@ class RunResult(object):
         self.n_ops = 0
         self.sim_time = 0.0
         self.records = None
+        self.derived_case = None
 
     def bump(self, key, n=1):
         self.stats[key] = self.stats.get(key, 0) + n
